@@ -323,10 +323,17 @@ Section Sim.
       { unfold selfA. destruct (lam_name sA id) as [n|]; [|reflexivity].
         rewrite lookup_frame_ren. destruct (lookup_frame scope n); reflexivity. }
       rewrite Eself.
-      set (inpA := match lookup fr "inputs" with Some i => [("inputs", i)] | None => [] end).
-      assert (Einp : match option_map ren (lookup fr "inputs") with Some i => [("inputs", i)] | None => [] end
-                     = renF inpA).
-      { unfold inpA. destruct (lookup fr "inputs"); reflexivity. }
+      (* F9 repaired: the caller's `inputs` only when the scope did not capture the name *)
+      set (inpA := match lookup_frame scope "inputs" with
+                   | Some _ => []
+                   | None => match lookup fr "inputs" with Some i => [("inputs", i)] | None => [] end
+                   end).
+      assert (Einp : match lookup_frame (renF scope) "inputs" with
+                     | Some _ => []
+                     | None => match option_map ren (lookup fr "inputs") with Some i => [("inputs", i)] | None => [] end
+                     end = renF inpA).
+      { unfold inpA. rewrite lookup_frame_ren. destruct (lookup_frame scope "inputs"); [reflexivity|].
+        cbn [option_map]. destruct (lookup fr "inputs"); reflexivity. }
       rewrite Einp, <- renF_app, bind_params_ren.
       destruct (bind_params args0 0 args (inpA ++ selfA)) as [local|]; cbn [option_map];
         [|split; [reflexivity|assumption]].
